@@ -42,6 +42,15 @@ func FuzzLike(f *testing.F) {
 			t.Skip()
 		}
 		p, x := clean(pattern), clean(text)
+		// a raw line break inside the literal is outside the documented grammar (expr-lang, which evaluates the
+		// lowered predicate, drops a carriage return and rejects a line feed inside a quoted literal); the text may
+		// contain them
+		p = strings.Map(func(r rune) rune {
+			if r == '\r' || r == '\n' {
+				return ' '
+			}
+			return r
+		}, p)
 		if pbtOpen("multibyte") && (!isASCII(p) || !isASCII(x)) {
 			t.Skip()
 		}
